@@ -1,7 +1,8 @@
 //go:build verif
 
 // Correspondence harness for the interceptors (C12). Injected with `go test -overlay`.
-//   st new ctx=cancel|bg
+//   st new ctx=cancel|bg|race   (race: the context is cancelled while a waiter is between its context check and
+//                                cond.Wait — the first live ctx.Err() cancels, then dawdles before answering "not done")
 //   st call t=<tid> c=send:<m>|recv|header|closesend ok=0|1
 //   st cancel | st trailer | st context | st unary
 //   => rets=<tid>:<ret>,... blocked=<tid>,... created=<n> attempts=<m|->,... sends=<m>,... recv=<n> header=<n> closesend=<n>
@@ -19,6 +20,7 @@ import (
 	"strconv"
 	"strings"
 	"sync"
+	"sync/atomic"
 	"testing"
 	"time"
 
@@ -29,6 +31,26 @@ import (
 )
 
 var errStCreate = errors.New("verif: stream creation failed")
+
+// stRaceCtx cancels the call's context from inside the first ctx.Err() that finds it alive and keeps
+// the caller (which holds the stream's mutex at that point) busy for a while: the watcher goroutine's
+// wake-up is due exactly between the waiter's context check and its cond.Wait.
+type stRaceCtx struct {
+	context.Context
+	cancel func()
+	armed  int32
+}
+
+func (c *stRaceCtx) Err() error {
+	if err := c.Context.Err(); err != nil {
+		return err
+	}
+	if atomic.CompareAndSwapInt32(&c.armed, 1, 0) {
+		c.cancel()
+		time.Sleep(25 * time.Millisecond)
+	}
+	return nil
+}
 
 type stFake struct {
 	mu                      sync.Mutex
@@ -81,6 +103,7 @@ type stHarness struct {
 	canceled bool
 	pending  []*stPending
 	mu       sync.Mutex
+	race     *stRaceCtx
 }
 
 type stMarker struct{}
@@ -187,9 +210,15 @@ func (h *stHarness) exec(line string) string {
 		}
 		*h = stHarness{}
 		base := context.WithValue(context.Background(), stMarker{}, "kept")
-		if a["ctx"] == "cancel" {
+		switch a["ctx"] {
+		case "cancel":
 			h.ctx, h.cancel = context.WithCancel(base)
-		} else {
+		case "race":
+			var cctx context.Context
+			cctx, h.cancel = context.WithCancel(base)
+			h.race = &stRaceCtx{Context: cctx, cancel: h.cancel, armed: 1}
+			h.ctx = h.race
+		default:
 			h.ctx = base
 		}
 		cs, err := GCPStreamClientInterceptor(h.ctx, &grpc.StreamDesc{}, nil, "/svc/m", h.streamer)
@@ -205,6 +234,12 @@ func (h *stHarness) exec(line string) string {
 		h.mu.Unlock()
 		p := &stPending{tid: tid, ch: make(chan string, 1)}
 		c := a["c"]
+		h.mu.Lock()
+		if h.race != nil && atomic.LoadInt32(&h.race.armed) == 1 && h.race.Context.Err() == nil &&
+			(c == "recv" || c == "header") && h.created == 0 && !h.failed {
+			h.canceled = true // this call will cancel the context from inside its own context check
+		}
+		h.mu.Unlock()
 		go func() {
 			p.ch <- guardRet(func() string {
 				switch {
@@ -303,8 +338,26 @@ func TestVerifStream(t *testing.T) {
 	emit := func(line string) {
 		fmt.Fprintf(w, "%s => %s\n", line, h.exec(line))
 	}
+	if ops := os.Getenv("VERIF_OPS"); ops != "" {
+		for _, file := range strings.Split(ops, ",") {
+			data, err := os.ReadFile(file)
+			if err != nil {
+				t.Fatal(err)
+			}
+			for _, line := range strings.Split(string(data), "\n") {
+				line = strings.TrimSpace(line)
+				if line == "" || strings.HasPrefix(line, "#") {
+					continue
+				}
+				if i := strings.Index(line, " =>"); i >= 0 {
+					line = line[:i]
+				}
+				emit(line)
+			}
+		}
+	}
 	for ep := 0; ep < episodes; ep++ {
-		emit("st new ctx=" + []string{"cancel", "cancel", "bg"}[rng.Intn(3)])
+		emit("st new ctx=" + []string{"cancel", "cancel", "bg", "race"}[rng.Intn(4)])
 		if ep%50 == 0 {
 			emit("st unary")
 		}
